@@ -485,6 +485,7 @@ def run(ctx):
         "reachable from CheckerContext::check, each documented breach class maps to a reachable leaf rule, group functions aggregate with "
         "combine_error_results, no Result produced in checker code (incl. the cli entry) is dropped, and every leaf rule has reachable error-producing sites "
         "(no constant-false guard / dominating early Ok); capacity verdicts use the component-wise can_fit (A4); no comparison relates a value to itself (Q1).")
+    ctx.explanation += " New in this revision: the recharge limit compares accumulator + current leg on every alternative (L2, must-derive); per-resource consumption is summed on the map entry (A5); the relation rule's tour lookup, evaluated over shift_index in {None, Some}, treats a missing shift index as 0 (K2)."
     ctx.not_decided = "acceptance of all valid solutions; rejection power per breach (predicates are value-level)."
     ctx.run("C12-A1", "every checker rule is reachable from CheckerContext::check; breach classes map to wired leaves; groups aggregate", a1_all_wired, floor=30)
     ctx.run("C12-A2", "no Result produced inside the checker is dropped", a2_no_dropped, floor=1)
